@@ -217,7 +217,7 @@ def _run(op: str, a: list) -> str:
         elif len(a) > 2 and a[2] is not None:
             # the same document in another layout (member order as given, random whitespace / escapes): the result must not depend on it
             import random as _random
-            text = _jt.rand_text(_random.Random(a[2]), a[0]).encode("utf-8", "surrogatepass")
+            text = _jt.rand_text(_random.Random(a[2]), a[0], float_variants=False).encode("utf-8", "surrogatepass")
         else:
             text = _gen.oracle_bytes(a[0])
         with open(fn, "wb") as f:
